@@ -369,6 +369,26 @@ func vC08Gen(r *vRand, cls string) *vC08Case {
 		case "foreign":
 			cd.exec = append(cd.exec, cd.end+7, cd.start-1)
 		}
+		// the executed list is a set as far as the property goes: nothing requires it to be ascending or free of
+		// repeats (seeded change C08-7 looked entries up with a binary search)
+		if len(cd.exec) >= 2 {
+			switch r.Intn(4) {
+			case 0: // reversed
+				for i, j := 0, len(cd.exec)-1; i < j; i, j = i+1, j-1 {
+					cd.exec[i], cd.exec[j] = cd.exec[j], cd.exec[i]
+				}
+			case 1: // shuffled, one entry repeated, a foreign number in the middle
+				pm := r.Perm(len(cd.exec))
+				sh := make([]uint64, 0, len(cd.exec)+2)
+				for _, k := range pm {
+					sh = append(sh, cd.exec[k])
+				}
+				sh = append(sh, sh[0])
+				mid := len(sh) / 2
+				sh = append(sh[:mid], append([]uint64{cd.end + 9}, sh[mid:]...)...)
+				cd.exec = sh
+			}
+		}
 		// costly
 		costlyP := vPick(r, []int{0, 0, 0, 6, 3})
 		if cls == "costly" {
